@@ -83,7 +83,13 @@ def r12_1(ctx):
     got = [[normalise(to_text(x)) for x in o.value] if o.kind == "return" else outcome_text(o) for o in outs]
     exp = ['LET("c", c, <consumer.il_exec()>)', 'LET("c", DUP(c), <consumer.il_exec()>)']
     ctx.check("resolve_lets: LET value raw once, then DUP", got == [exp], str(exp), str(got), fn_where(idx, fr))
-    # immediates: the pure is consumed exactly once, by its own copy-assignment; afterwards the local is read
+    immediate_read_protocol(ctx)
+
+
+def immediate_read_protocol(ctx):
+    """an immediate is copied into its IL variable once (the copy-assignment consumes the fetched C value); every other read - also the
+    source of a later assignment, after the behaviour may have changed the immediate - reads the IL variable"""
+    idx = get_index(ctx.env)
     fim = idx.func("Immediate.il_read")
     def once2(i):
         o = AObj("Immediate", {"reads": 0, "assign_reads": 0, "assign_usage": True, "name": "s", "isa_name": "s"}, label="self")
